@@ -217,7 +217,7 @@ pub fn observe<P: Pad>(m: &mut Map<String, Value>) {
                 let a1 = &**cc as *const Node<P> as usize;
                 let a2 = <Cc<Node<P>> as AsRef<Node<P>>>::as_ref(cc) as *const Node<P> as usize;
                 let a3 = <Cc<Node<P>> as std::borrow::Borrow<Node<P>>>::borrow(cc) as *const Node<P> as usize;
-                let same = a1 == a2 && a2 == a3 && v.iter().all(|c| (&**c as *const Node<P> as usize) == a1);
+                let same = a1 == a2 && a2 == a3 && v.iter().take(8).chain(v.iter().rev().take(8)).all(|c| (&**c as *const Node<P> as usize) == a1);
                 let e = alloc::lookup(base);
                 let (blk, live) = e.map(|e| (e.blk as i64, e.live)).unwrap_or((0, false));
                 ad.push(json!([o, blk, (a1 as i64) - (base as i64), (a1 % std::mem::align_of::<Node<P>>()) as i64, same, live]));
@@ -396,7 +396,12 @@ pub fn valid<P: Pad>(call: &Value) -> bool {
             "newcyc" => true,
             #[cfg(feature = "weak")]
             "savew" | "wprobe" => !PROVIDED.with(|c| c.get()).is_null() && ctx_ptr_kind(o) == Some(CbKind::Closure),
-            "clone" | "drop" | "mark" | "unwrap" | "fagain" | "downgrade" => has_root(o),
+            "clone" | "drop" | "mark" | "unwrap" | "fagain" | "downgrade" | "clonen" => has_root(o),
+            "dropn" => w.roots.get(&o).map_or(0, |v| v.len()) > g_u32(call, "n") as usize,
+            #[cfg(feature = "weak")]
+            "clonewn" => w.wroots.get(&o).map_or(false, |v| !v.is_empty()),
+            #[cfg(feature = "weak")]
+            "dropwn" => w.wroots.get(&o).map_or(0, |v| v.len()) >= g_u32(call, "n") as usize,
             "clonef" | "clear" => slot_state(a, k, i) == Some(true),
             "set" => has_root(b) && node_ok(a) && slot_state(a, k, i) == Some(false),
             // after giving up one handle of `o` the program must still be able to name `a`
@@ -449,6 +454,52 @@ pub fn exec<P: Pad>(call: &Value) {
             });
             json!({})
         }),
+        "clonen" => run_op::<P>(call, || {
+            let n = g_u32(call, "n");
+            with_world::<P, _>(|w| {
+                for _ in 0..n {
+                    let c = w.roots[&o][0].clone();
+                    w.roots.get_mut(&o).unwrap().push(c);
+                }
+            });
+            json!({})
+        }),
+        "dropn" => {
+            let n = g_u32(call, "n") as usize;
+            let hs: Vec<Cc<Node<P>>> = with_world::<P, _>(|w| {
+                let v = w.roots.get_mut(&o).unwrap();
+                let k = v.len() - n;
+                v.split_off(k)
+            });
+            run_op::<P>(call, move || {
+                drop(hs);
+                json!({})
+            });
+        }
+        #[cfg(feature = "weak")]
+        "clonewn" => run_op::<P>(call, || {
+            let n = g_u32(call, "n");
+            with_world::<P, _>(|w| {
+                for _ in 0..n {
+                    let c = w.wroots[&o][0].clone();
+                    w.wroots.get_mut(&o).unwrap().push(c);
+                }
+            });
+            json!({})
+        }),
+        #[cfg(feature = "weak")]
+        "dropwn" => {
+            let n = g_u32(call, "n") as usize;
+            let hs: Vec<weak::Weak<Node<P>>> = with_world::<P, _>(|w| {
+                let v = w.wroots.get_mut(&o).unwrap();
+                let k = v.len() - n;
+                v.split_off(k)
+            });
+            run_op::<P>(call, move || {
+                drop(hs);
+                json!({})
+            });
+        }
         "clonef" => run_op::<P>(call, || {
             let t = with_world::<P, _>(|w| {
                 let n = unsafe { node_ref(w, a) }.unwrap();
